@@ -79,9 +79,13 @@ def from_model(node, constants=None, _memo=None):
             return int(str(x), 0)
         except ValueError:
             v = constants.get(x)
-            if v is None:
-                raise
-            return v
+            if v is not None:
+                return v
+            import re
+            if re.match(r'^[\w\s()+\-*/<>|]+$', str(x)):
+                # an arithmetic expression over constants (isar size x size2, operators): integer semantics of specs/expr.py
+                return int(eval(str(x).replace('/', '//'), {'__builtins__': {}}, dict(constants)))
+            raise
 
     def base_type(type_name, definition):
         if type_name in _BUILTIN:
